@@ -154,6 +154,17 @@ CLAIMS["C13"] = dict(
     technique="units-of-measure type inference + algebraic GVN (mirror identities) + access-relation twin analysis",
     ref="DESIGN.md section 4 C13")
 
+CLAIMS["C12"] = dict(
+    text=("Whole statement in real arithmetic plus must-overflow: the (a,b) plane is partitioned exhaustively into 21 "
+          "sign/order regions parametrised by positive atoms (for the regularised limiters both regimes product above / "
+          "below the threshold); in each region every min/max/where resolves and zero, common sign, |phi| <= 2 min and "
+          "|phi| <= max are sign certificates, symmetry / oddness / homogeneity ring identities, consistency phi(a,a)=a exact "
+          "or within the statement's 1e-20/a^2 (or below half an ulp), for minmod, vanalbada, vanleer, superbee; an interval "
+          "analysis in log-magnitude over a box partition of [1e-150,1e150]^2 reports intermediates that must overflow. "
+          "Not decided: rounding of individual operations, subnormals, may-overflow."),
+    technique="exhaustive region enumeration by positive parametrisation + sign certificates over the GVN ring + interval analysis in log-magnitude",
+    ref="DESIGN.md section 4 C12")
+
 NA_REASONS = {
     "C09": ("runtime invariant of trajectories (range and total variation after every step for all data); its "
             "code-shape premises are owned and decided by C02, C05, C11, C12, C18; the remaining step (flux "
